@@ -26,31 +26,80 @@ NAN, PINF, NINF, OTHER = -99, -97, -96, -98
 INTERP = os.environ.get("NUMBA_DISABLE_JIT") == "1"
 
 
-def real(code, off, unit):
+def real(code, off, unit, table=None):
+    """real value of a code: NaN / inf codes, else table[code], else off + code*unit (python arithmetic: exact
+    for integer off/unit however large)"""
     if code == NAN:
         return float("nan")
     if code == PINF:
         return float("inf")
     if code == NINF:
         return float("-inf")
+    if table is not None:
+        return table[code]
     return off + code * unit
 
 
-def raster(codes, shape, dtype, off, unit):
-    a = np.array([real(c, off, unit) for c in codes], dtype=np.float64).reshape(shape)
+def lay(a, layout):
+    """same values, another memory layout"""
+    H, W = a.shape
+    if layout in (None, "C"):
+        return np.ascontiguousarray(a)
+    if layout == "F":
+        return np.asfortranarray(a)
+    if layout == "T":                       # transposed view of a C array
+        return np.ascontiguousarray(a.T).T
+    if layout == "view":                    # strided view into a bigger array
+        big = np.zeros((2 * H + 1, 3 * W + 2), dtype=a.dtype)
+        v = big[1::2, 2::3][:H, :W]
+        v[...] = a
+        return v
+    if layout == "rev":                     # rows reversed: negative stride
+        return np.ascontiguousarray(a[::-1])[::-1]
+    if layout == "Fcols":                   # column slice of a Fortran array
+        big = np.zeros((H, 2 * W), dtype=a.dtype, order="F")
+        v = big[:, ::2]
+        v[...] = a
+        return v
+    raise ValueError(layout)
+
+
+def array_of(reals, shape, dtype):
     if np.dtype(dtype).kind in "iu":
-        a = np.round(a).astype(dtype)
-    else:
-        a = a.astype(dtype)
+        ints = []
+        for v in reals:
+            if isinstance(v, float):
+                if v != v or v in (float("inf"), float("-inf")) or v != int(v):
+                    raise MachineryJob("non-integral value %r for an integer raster" % v)
+                v = int(v)
+            ints.append(v)
+        info = np.iinfo(dtype)
+        if any(v < info.min or v > info.max for v in ints):
+            raise MachineryJob("value outside the range of %s" % dtype)
+        return np.array(ints, dtype=dtype).reshape(shape)
+    return np.array([float(v) for v in reals], dtype=np.float64).astype(dtype).reshape(shape)
+
+
+class MachineryJob(Exception):
+    """the job itself is malformed (generator's fault, never a finding)"""
+
+
+def raster(codes, shape, dtype, off, unit, table=None, layout=None):
+    a = lay(array_of([real(c, off, unit, table) for c in codes], shape, dtype), layout)
     H, W = shape
     return xr.DataArray(a, dims=["y", "x"], coords={"y": np.arange(H, 0, -1.0), "x": np.arange(W) * 1.0},
                         attrs={"res": 1})
 
 
 def cls(v):
-    v = float(v)
+    try:
+        v = float(v)
+    except Exception:
+        return OTHER
     if math.isnan(v):
         return NAN
+    if math.isinf(v):
+        return OTHER
     return int(v) if v == int(v) and abs(v) < 10 ** 6 else OTHER
 
 
@@ -95,18 +144,33 @@ def traced_bin(data, bins, new_values):
 
 
 def run_bin(j):
+    """real bin = bins[i]*s, real value = (vals2/2)*s with s = j["s"] (default 1; s = 1/2 gives fractional bins on
+    integer rasters when the bins are odd and vals2 multiples of 4); optional 2-D shape + layout"""
     bins = j["bins"]
     n = len(bins)
-    vals = np.array([real(v, 0.0, 0.5) for v in j["vals2"]], dtype=np.float64)
+    sc = j.get("s", 1)
     dtype = j.get("dtype", "float64")
-    if np.dtype(dtype).kind in "iu" and any(v in (NAN, PINF, NINF) or v % 2 for v in j["vals2"]):
-        raise ValueError("integer rasters cannot carry half-integers or non-finite values")
-    data = vals.astype(dtype).reshape(1, -1)
-    b = np.asarray(bins, dtype=np.float64 if j.get("bins_float") else np.int64)
+    isint = np.dtype(dtype).kind in "iu"
+    reals = []
+    for v in j["vals2"]:
+        r = real(v, 0.0, 0.5)
+        reals.append(r * sc if v not in (NAN, PINF, NINF) else r)
+    if isint and any(v in (NAN, PINF, NINF) for v in j["vals2"]):
+        raise MachineryJob("integer rasters cannot carry non-finite values")
+    shape = j.get("shape") or [1, len(reals)]
+    if shape[0] * shape[1] != len(reals):
+        raise MachineryJob("shape does not match the number of values")
+    data = lay(array_of(reals, shape, dtype), j.get("layout"))
+    rb = [x * sc for x in bins]
+    bfloat = j.get("bins_float") or any(x != int(x) for x in rb)
+    b = np.asarray(rb, dtype=np.float64 if bfloat else np.int64)
     idx = C._cpu_bin(data, b, np.arange(n))
     agg = xr.DataArray(data, dims=["y", "x"])
-    recl = C.reclassify(agg, bins=[float(x) for x in bins] if j.get("bins_float") else list(bins),
+    recl = C.reclassify(agg, bins=[float(x) for x in rb] if bfloat else [int(x) for x in rb],
                         new_values=[10 + i for i in range(n)]).data
+    idx = np.asarray(idx).reshape(1, -1) if np.asarray(idx).shape == data.shape else np.full((1, len(reals)), -7.0)
+    recl = np.asarray(recl).reshape(1, -1) if np.asarray(recl).shape == data.shape else np.full((1, len(reals)), -7.0)
+    data = np.ascontiguousarray(data).reshape(1, -1)
     trace = [[] for _ in j["vals2"]]
     if j.get("trace") and INTERP and _while_line() > 0:
         for q in range(data.shape[1]):
@@ -120,25 +184,33 @@ def run_bin(j):
         v = float(v)
         if math.isnan(v):
             return -1
+        if math.isinf(v):
+            return -2
         return int(v) if v == int(v) and base <= v < base + n else -2
     return {"kind": "bin", "bins": bins, "vals2": j["vals2"], "idx": [enc(v, 0) for v in idx[0]],
             "recl": [enc(v, 10) for v in np.asarray(recl)[0]], "trace": trace}
 
 
 def run_binary(j):
-    agg = raster(j["vals"], j["shape"], j["dtype"], j.get("off", 0), j.get("unit", 1))
-    lst = [real(c, j.get("off", 0), j.get("unit", 1)) for c in j["list"]]
-    if np.dtype(j["dtype"]).kind in "iu":
-        lst = [int(round(v)) for v in lst]
+    """list: the codes the judge sees (a listed value that equals no cell value gets a code that occurs in no
+    cell); list_real (optional): the values really passed, aligned with list - e.g. 1.5 on an int raster"""
+    off, unit, table = j.get("off", 0), j.get("unit", 1), j.get("table")
+    agg = raster(j["vals"], j["shape"], j["dtype"], off, unit, table, j.get("layout"))
+    if j.get("list_real") is not None:
+        lst = list(j["list_real"])
+    else:
+        lst = [real(c, off, unit, table) for c in j["list"]]
+        if np.dtype(j["dtype"]).kind in "iu":
+            lst = [int(round(v)) if isinstance(v, float) else v for v in lst]
     out = C.binary(agg, lst)
     ident = bool(list(out.dims) == ["y", "x"] and out.shape == agg.shape)
-    return {"kind": "binary", "vals": j["vals"], "list": j["list"], "out": [cls(v) for v in np.asarray(out.data).ravel()],
-            "ident": ident}
+    o = np.asarray(out.data)
+    return {"kind": "binary", "vals": j["vals"], "list": j["list"],
+            "out": [cls(v) for v in o.ravel()] if o.shape == agg.shape else [], "ident": ident}
 
 
 def run_classes(j):
-    agg = raster(j["vals"], j["shape"], j["dtype"], j.get("off", 0), j.get("unit", 1))
-    before = agg.data.copy()
+    agg = raster(j["vals"], j["shape"], j["dtype"], j.get("off", 0), j.get("unit", 1), j.get("table"), j.get("layout"))
     f = getattr(C, j["func"])
     out = f(agg, k=j["k"])
     o = np.asarray(out.data)
@@ -149,6 +221,9 @@ def run_classes(j):
 def run_job(j):
     try:
         c = {"bin": run_bin, "binary": run_binary, "classes": run_classes}[j["kind"]](j)
+    except MachineryJob as ex:
+        sys.stderr.write("malformed job: %s %r\n" % (ex, j))
+        raise
     except Exception as ex:
         c = {"kind": j["kind"], "error": "%s: %s" % (type(ex).__name__, str(ex)[:300])}
     c["job"] = j
